@@ -471,8 +471,9 @@ static void output_to_column(size_t column, bool allow_tabs)
 static void cmt_output_indent(size_t brace_col, size_t base_col, size_t column)
 {
    log_rule_B("indent_cmt_with_tabs");
-   size_t iwt = options::indent_cmt_with_tabs() ? 2 :
-                (options::indent_with_tabs() ? 1 : 0);
+   // indent_with_tabs=0 means "spaces only", whatever indent_cmt_with_tabs says
+   size_t iwt = (options::indent_with_tabs() == 0) ? 0 :
+                (options::indent_cmt_with_tabs() ? 2 : 1);
 
    size_t tab_col = (iwt == 0) ? 0 : ((iwt == 1) ? brace_col : base_col);
 
